@@ -128,3 +128,31 @@ Fixpoint has_loop_send (e : event) : bool :=
   end.
 Definition wakes_by_blocking_send (l : list event) : bool := existsb has_loop_send l.
 Definition calls (f : string) (l : list event) : bool := existsb (String.eqb f) (calls_of l).
+
+(** calls in source order; a call made from a deferred closure is prefixed "defer:" *)
+Fixpoint flat (e : event) : list string :=
+  match e with
+  | Call f => [f]
+  | If a b => flat_map flat a ++ flat_map flat b
+  | Loop b | Block b | Go b => flat_map flat b
+  | Defer b => map (String.append "defer:") (flat_map flat b)
+  | _ => []
+  end.
+Definition flat_all (l : list event) : list string := flat_map flat l.
+
+Fixpoint index_of (x : string) (l : list string) (k : nat) : option nat :=
+  match l with
+  | [] => None
+  | y :: r => if String.eqb x y then Some k else index_of x r (S k)
+  end.
+Fixpoint last_index_of (x : string) (l : list string) (k : nat) (acc : option nat) : option nat :=
+  match l with
+  | [] => acc
+  | y :: r => last_index_of x r (S k) (if String.eqb x y then Some k else acc)
+  end.
+(** the first occurrence of [a] precedes the last occurrence of [b] *)
+Definition registered_before (a b : string) (l : list string) : bool :=
+  match index_of a l 0, last_index_of b l 0 None with
+  | Some i, Some j => Nat.ltb i j
+  | _, _ => false
+  end.
